@@ -30,6 +30,8 @@ Lemma prep_item_provide e b :
 Proof. reflexivity. Qed.
 Lemma prep_item_drop e b : prep_item C um e (IDrop b) = (prep_items C um e b;; ret []).
 Proof. reflexivity. Qed.
+Lemma prep_item_extract e b : prep_item C um e (IExtract b) = with_cd (hd_error (e_anc e)) (prep_items C um e b).
+Proof. reflexivity. Qed.
 Lemma prep_item_comp e isroot rootel up mask name np body :
   prep_item C um e (IComp isroot rootel up mask (Comp name np body)) =
   match isroot, e_anc e with
@@ -50,6 +52,8 @@ Proof. reflexivity. Qed.
 Lemma defer_item_provide e p b infos : defer_item C um e p (IProvide b) infos = defer_items C um e p b infos.
 Proof. reflexivity. Qed.
 Lemma defer_item_drop e p b infos : defer_item C um e p (IDrop b) infos = ret infos.
+Proof. reflexivity. Qed.
+Lemma defer_item_extract e p b infos : defer_item C um e p (IExtract b) infos = defer_items C um e p b infos.
 Proof. reflexivity. Qed.
 Lemma defer_item_comp e p isroot rootel up mask name np body infos :
   defer_item C um e p (IComp isroot rootel up mask (Comp name np body)) infos =
@@ -78,6 +82,8 @@ Lemma sp_prep_item_provide top b k : sp_prep_item um top (IProvide b) k = sp_pre
 Proof. reflexivity. Qed.
 Lemma sp_prep_item_drop top b k : sp_prep_item um top (IDrop b) k = sp_prep_items um top b k.
 Proof. reflexivity. Qed.
+Lemma sp_prep_item_extract top b k : sp_prep_item um top (IExtract b) k = sp_prep_items um top b k.
+Proof. reflexivity. Qed.
 Lemma sp_prep_item_comp top isroot rootel up mask name np body k :
   sp_prep_item um top (IComp isroot rootel up mask (Comp name np body)) k =
   if isroot || top
@@ -99,6 +105,8 @@ Lemma sp_defer_item_provide p b k : sp_defer_item um p (IProvide b) k = sp_defer
 Proof. reflexivity. Qed.
 Lemma sp_defer_item_drop p b k : sp_defer_item um p (IDrop b) k = SOk k.
 Proof. reflexivity. Qed.
+Lemma sp_defer_item_extract p b k : sp_defer_item um p (IExtract b) k = sp_defer_items um p b k.
+Proof. reflexivity. Qed.
 Lemma sp_defer_item_comp p isroot rootel up mask name np body k :
   sp_defer_item um p (IComp isroot rootel up mask (Comp name np body)) k =
   if isroot then SOk k
@@ -114,6 +122,7 @@ Lemma nk_item_point top : nk_item top IPoint = O. Proof. reflexivity. Qed.
 Lemma nk_item_slot top l b : nk_item top (ISlot l b) = nk_items top b. Proof. reflexivity. Qed.
 Lemma nk_item_provide top b : nk_item top (IProvide b) = nk_items top b. Proof. reflexivity. Qed.
 Lemma nk_item_drop top b : nk_item top (IDrop b) = O. Proof. reflexivity. Qed.
+Lemma nk_item_extract top b : nk_item top (IExtract b) = nk_items top b. Proof. reflexivity. Qed.
 Lemma nk_item_comp top isroot rootel up mask c :
   nk_item top (IComp isroot rootel up mask c) = if isroot || top then O else 1%nat.
 Proof. reflexivity. Qed.
@@ -121,13 +130,13 @@ Lemma nk_items_nil top : nk_items top INil = O. Proof. reflexivity. Qed.
 Lemma nk_items_cons top i r : nk_items top (ICons i r) = (nk_item top i + nk_items top r)%nat. Proof. reflexivity. Qed.
 
 Ltac eqs := cbv beta;
-  rewrite ?prep_item_point, ?prep_item_slot, ?prep_item_provide, ?prep_item_drop, ?prep_item_comp,
+  rewrite ?prep_item_point, ?prep_item_slot, ?prep_item_provide, ?prep_item_drop, ?prep_item_extract, ?prep_item_comp,
           ?prep_items_nil, ?prep_items_cons, ?defer_item_point, ?defer_item_slot, ?defer_item_provide,
-          ?defer_item_drop, ?defer_item_comp, ?defer_items_nil, ?defer_items_cons,
-          ?sp_prep_item_point, ?sp_prep_item_slot, ?sp_prep_item_provide, ?sp_prep_item_drop, ?sp_prep_item_comp,
+          ?defer_item_drop, ?defer_item_extract, ?defer_item_comp, ?defer_items_nil, ?defer_items_cons,
+          ?sp_prep_item_point, ?sp_prep_item_slot, ?sp_prep_item_provide, ?sp_prep_item_drop, ?sp_prep_item_extract, ?sp_prep_item_comp,
           ?sp_prep_items_nil, ?sp_prep_items_cons, ?sp_defer_item_point, ?sp_defer_item_slot,
-          ?sp_defer_item_provide, ?sp_defer_item_drop, ?sp_defer_item_comp, ?sp_defer_items_nil, ?sp_defer_items_cons,
-          ?nk_item_point, ?nk_item_slot, ?nk_item_provide, ?nk_item_drop, ?nk_item_comp, ?nk_items_nil, ?nk_items_cons.
+          ?sp_defer_item_provide, ?sp_defer_item_drop, ?sp_defer_item_extract, ?sp_defer_item_comp, ?sp_defer_items_nil, ?sp_defer_items_cons,
+          ?nk_item_point, ?nk_item_slot, ?nk_item_provide, ?nk_item_drop, ?nk_item_extract, ?nk_item_comp, ?nk_items_nil, ?nk_items_cons.
 
 Lemma nk_top_zero : (forall i, nk_item true i = O) /\ (forall l, nk_items true l = O) /\ (forall c : comp, True).
 Proof.
@@ -196,6 +205,27 @@ Proof.
       exists (Exn ex), s1. split; [reflexivity|]. split; [exact A|]. split; [exact K|].
       cbn [ctl]. split; [split; [reflexivity | exact Hf]|]. intros infos Hi. discriminate Hi.
   - apply defer_skip; reflexivity.
+Qed.
+
+Lemma P_extract b : Pl b -> Pi (IExtract b).
+Proof.
+  intros [Hp Hd]. split.
+  - intros e s HPI HB HAV HANC Hr. eqs.
+    set (s0 := up_cdicts (cons (hd_error (e_anc e), next s)) s).
+    assert (E0 : tabs_eq s s0) by apply tabs_eq_up_cdicts.
+    destruct (Hp e s0) as [res [s1 [Hrun [A [K [Cc Q]]]]]].
+    { eapply tabs_eq_PI; eauto. } { eapply tabs_eq_below; eauto. }
+    { intros P HP. destruct (HAV P HP) as [a [Ha Hb]]. exists a. split; [exact Ha | exact Hb]. }
+    { intros a Ha. apply (HANC a Ha). }
+    { exact Hr. }
+    destruct (with_cd_run (hd_error (e_anc e)) (prep_items C um e b) s res s1 Hrun K) as [Hw Kw].
+    exists res, (up_cdicts (rem1_tok (next s)) s1). split; [exact Hw|].
+    split; [eapply step_tabs_eq; [apply tabs_eq_sym; exact E0 | apply tabs_eq_up_cdicts | exact A]|].
+    split; [exact Kw|]. split; [exact Cc|].
+    intros infos Hi. destruct (Q infos Hi) as [Hl [Hnd Hall]]. split; [exact Hl|]. split; [exact Hnd|].
+    rewrite Forall_forall in *. intros inf Hin. destruct (Hall inf Hin) as [Hge Hg]. split; [exact Hge|].
+    intros r Hr'. specialize (Hg r Hr'). destruct Hg as [G1 G2 G3 G4 G5]. constructor; assumption.
+  - exact Hd.
 Qed.
 
 Lemma P_comp isroot rootel up mask c : Pc c -> Pi (IComp isroot rootel up mask c).
@@ -388,6 +418,7 @@ Proof.
   - intros l b Hb. apply P_slot. exact Hb.
   - intros b Hb. apply P_provide. exact Hb.
   - intros b Hb. apply P_drop. exact Hb.
+  - intros b Hb. apply P_extract. exact Hb.
   - intros isroot rootel up mask c Hc. apply P_comp. exact Hc.
   - exact P_nil.
   - intros i Hi r Hr. apply P_cons; assumption.
